@@ -294,12 +294,17 @@ class Request(Message):
             done = data[:2] == b"\r\n"
 
             if idx < 0 and not done:
-                self.get_data(unreader, buf)
-                data = buf.getvalue()
                 if len(data) > self.max_buffer_headers:
                     raise LimitRequestHeaders("max buffer headers")
+                self.get_data(unreader, buf)
+                data = buf.getvalue()
             else:
                 break
+
+        # same bound once the end of the header block is known, so that the
+        # decision does not depend on how the block was split across reads
+        if not done and idx + 3 > self.max_buffer_headers:
+            raise LimitRequestHeaders("max buffer headers")
 
         if done:
             self.unreader.unread(data[2:])
